@@ -68,11 +68,15 @@ theorem textOf_stat_len {hp : Heap} {st : List Bytes} {i l : Nat} {t : Bytes} (h
 def norm {ρ ρ' : Type} : Step ρ ρ → Step ρ' ρ
   | .next a s | .done a s => .next a s
   | .pidx s => .pidx s
+  | .palloc s => .palloc s
+  | .pcb s => .pcb s
   | .ub u => .ub u
 
 theorem norm_next {ρ ρ' : Type} (a : ρ) (s : St) : (norm (.next a s) : Step ρ' ρ) = .next a s := rfl
 theorem norm_done {ρ ρ' : Type} (a : ρ) (s : St) : (norm (.done a s) : Step ρ' ρ) = .next a s := rfl
 theorem norm_pidx {ρ ρ' : Type} (s : St) : (norm (.pidx s : Step ρ ρ) : Step ρ' ρ) = .pidx s := rfl
+theorem norm_palloc {ρ ρ' : Type} (s : St) : (norm (.palloc s : Step ρ ρ) : Step ρ' ρ) = .palloc s := rfl
+theorem norm_pcb {ρ ρ' : Type} (s : St) : (norm (.pcb s : Step ρ ρ) : Step ρ' ρ) = .pcb s := rfl
 theorem norm_ub {ρ ρ' : Type} (u : UB) : (norm (.ub u : Step ρ ρ) : Step ρ' ρ) = .ub u := rfl
 
 theorem call_norm {ρ ρ' : Type} (m : M ρ ρ) (s : St) : (Rt.call m : M ρ' ρ) s = norm (m s) := by
@@ -82,7 +86,8 @@ theorem call_norm {ρ ρ' : Type} (m : M ρ ρ) (s : St) : (Rt.call m : M ρ' ρ
 def stepOfRes {ρ' : Type} (rf : Refuse) (st : List Bytes) : Res Unit → Step ρ' (Rs Unit)
   | .ok _ hp r => .next (.ok ()) ⟨rf, st, hp, r⟩
   | .err hp r => .next .err ⟨rf, st, hp, r⟩
-  | .pidx hp r | .pcb hp r => .pidx ⟨rf, st, hp, r⟩
+  | .pidx hp r => .pidx ⟨rf, st, hp, r⟩
+  | .pcb hp r => .pcb ⟨rf, st, hp, r⟩
   | .ub u => .ub u
 
 /-! ### outcomes the hand model never produces -/
